@@ -105,6 +105,11 @@ func main() {
 					}
 				}
 				for _, o := range res.Script.obls {
+					if o.ok() && *dump != "" && os.Getenv("GOVC_DUMPALL") != "" {
+						os.MkdirAll(*dump, 0755)
+						fn := *dump + "/" + strings.NewReplacer("/", "_", "*", "", "(", "", ")", "", ":", "_").Replace(o.Name) + ".smt2"
+						os.WriteFile(fn, []byte(res.Script.text(o, true)), 0644)
+					}
 					if !o.ok() {
 						bad++
 						fmt.Printf("   FAIL %-60s %s (%s, %dms) @%s\n        %s\n", o.Name, o.Verdict, o.Solver, o.Millis, o.Pos, o.Text)
